@@ -39,21 +39,34 @@ Fixpoint perms {A} (l : list A) : list (list A) :=
   | x :: r => flat_map (insert_all x) (perms r)
   end.
 
+(* all orders of up to four files; for more, the rotations and their reversals *)
+Fixpoint rotations_from {A} (n : nat) (l : list A) : list (list A) :=
+  match n with
+  | O => []
+  | S k => l :: match l with [] => [] | x :: r => rotations_from k (r ++ [x]) end
+  end.
+Definition orders {A} (l : list A) : list (list A) :=
+  if Nat.leb (length l) 4 then perms l
+  else let rs := rotations_from (length l) l in rs ++ map (@rev A) rs.
+
 Definition check_export (D : desc) (files : list str) (cls_export : N) (first : list (ref * root)) : bool :=
   match files_of D files with
   | None => false
   | Some fs =>
-      (match reflect D fs with
-       | Ok st =>
-           (* what the round-trip theorem assumes of a reflected set, checked on every case *)
-           keys_distinct st && set_importable st && set_closed st &&
-           match export_set st with
-           | Ok l => N.eqb cls_export 0 && same_map l first
-           | _ => false
-           end
-       | _ => false
-       end)
-      || (negb (N.eqb cls_export 0) && existsb (fun p => N.eqb cls_export (cls (reflect D p))) (perms fs))
+      (* vm_compute is call-by-value: branch explicitly so that the orders are only tried when needed *)
+      if match reflect D fs with
+         | Ok st =>
+             (* what the round-trip theorem assumes of a reflected set, checked on every case *)
+             keys_distinct st && set_importable st && set_closed st &&
+             match export_set st with
+             | Ok l => N.eqb cls_export 0 && same_map l first
+             | _ => false
+             end
+         | _ => false
+         end
+      then true
+      else if N.eqb cls_export 0 then false
+      else existsb (fun p => N.eqb cls_export (cls (reflect D p))) (orders fs)
   end.
 
 Definition exported (st : sset) : list (ref * root) :=
